@@ -78,4 +78,29 @@ def metaTagSteps : List ProfileStep := [.everyConfigKeyTagged, .srcRefProcTagged
 def fuseLoopRebinds : List String := []
 def compareLoopRebinds : List String := ["src_bands"]
 
+/-- `utils.validate_threads`: 0 means every processor; more than there are is refused -/
+def resolveThreads (threads cpu : Int) : Option Int :=
+  let t := if threads = 0 then cpu else threads
+  if cpu < t then none else some t
+
+/-- fuse / compare / stats options whose default is computed from the API's own defaults (`create_block_config`,
+    `create_model_config`, `create_out_profile`, `KernelModel.default_*`) rather than repeated as a literal -/
+def cliDefaultsFromApi : List String :=
+  ["downsampling", "driver", "dtype", "kernel-shape", "mask-partial", "max-block-mem", "model", "nodata", "r2-inpaint-thresh",
+   "threads", "upsampling"]
+
+/-- defaults of the flags (the API's keyword defaults: `overwrite=False`, no parameter image, `build_ovw=True`, `force=False`) -/
+def cliFlagDefaults : List (String × Bool) :=
+  [("overwrite", false), ("param-image", false), ("build-ovw", true), ("force-match", false)]
+
+/-- the `FUSE_*` tags `RasterFuse.process` writes into the corrected and the parameter image: source, reference, processing
+    grid, then one per configuration key (model, kernel shape, model configuration, block configuration) -/
+def fuseTags : List String :=
+  ["FUSE_SRC_FILE", "FUSE_REF_FILE", "FUSE_PROC_CRS", "FUSE_MODEL", "FUSE_KERNEL_SHAPE", "FUSE_R2_INPAINT_THRESH",
+   "FUSE_MASK_PARTIAL", "FUSE_DOWNSAMPLING", "FUSE_UPSAMPLING", "FUSE_THREADS", "FUSE_MAX_BLOCK_MEM"]
+
+/-- the tags `ParamStats` reads (model and in-paint threshold) and the ones `validate_param_image` insists on -/
+def statsTags : List String := ["FUSE_MODEL", "FUSE_R2_INPAINT_THRESH"]
+def paramRequiredTags : List String := ["FUSE_KERNEL_SHAPE", "FUSE_MODEL", "FUSE_PROC_CRS", "FUSE_REF_FILE"]
+
 end Homonim
